@@ -213,6 +213,9 @@ def _str_to_set(
 
 def _str_to_set_of_expr(value: Any) -> set[Expression]:
     value = _str_to_set(value)
+    if not isinstance(value, set):
+        # Not a collection of expressions. Let the validator report it.
+        return value
     result = set()
     for expression in value:
         try:
